@@ -619,11 +619,20 @@ def generics_decl(d):
     if not d.params:
         return "", ""
     bounds = ["", "Clone", "Clone + std::fmt::Debug", "PartialEq"][d.bound_style]
+    # one generic definition in three gives its last parameter a default type (`struct S<T = Entity>`):
+    # defaults may appear on the type but not on the impls the derives generate
+    import zlib
+    h = zlib.crc32(("dflt|" + d.name + "|" + ",".join(d.params)).encode())
+    d.param_default = ["u32", "Entity"][(h >> 8) % 2] if h % 3 == 0 else None
+
+    def dflt(i):
+        return " = %s" % d.param_default if d.param_default and i == len(d.params) - 1 else ""
     if d.bound_style == 0 or not bounds:
-        return "<%s>" % ", ".join(d.params), ""
+        return "<%s>" % ", ".join(p + dflt(i) for i, p in enumerate(d.params)), ""
     if d.bound_style == 3:
-        return "<%s>" % ", ".join(d.params), " where " + ", ".join("%s: %s" % (p, bounds) for p in d.params)
-    return "<%s>" % ", ".join("%s: %s" % (p, bounds) for p in d.params), ""
+        return ("<%s>" % ", ".join(p + dflt(i) for i, p in enumerate(d.params)),
+                " where " + ", ".join("%s: %s" % (p, bounds) for p in d.params))
+    return "<%s>" % ", ".join("%s: %s%s" % (p, bounds, dflt(i)) for i, p in enumerate(d.params)), ""
 
 
 def emit_def(d):
@@ -986,6 +995,8 @@ def static_counters(gens):
             bump("types_depth_%d" % max([d.depth] + [i["depth"] for i in d.insts]))
             if d.storage:
                 bump("types_component_and_saveload")
+            if getattr(d, "param_default", None):
+                bump("types_generic_with_defaulted_parameter")
             if getattr(d, "via_macro", False):
                 bump("types_defined_through_macro_rules_ty_fragments")
             fields = d.all_fields()
